@@ -21,6 +21,9 @@ from .terms import NONE, TRUE, FALSE, const, head, is_const, strip, subst, walk
 # in-place methods of builtin containers: a call ``x.m(args)`` as a statement rebinds x to ('mut', m, old, args, kwargs)
 MUTATORS = {"append", "extend", "update", "add", "insert", "discard", "remove", "setdefault", "sort", "reverse", "clear", "pop", "popitem"}
 
+# library functions that modify their first argument in place: ``f(x, ...)`` as a statement rebinds x to ('mutf', f, old, args, kwargs)
+INPLACE_CALLS = {"fill_diagonal", "shuffle", "put", "copyto", "place", "putmask"}
+
 FALL = ("fall",)
 CONT = ("cont",)
 
@@ -276,6 +279,9 @@ def assigned_names(stmts):
         elif isinstance(n, ast.Expr) and isinstance(n.value, ast.Call) and isinstance(n.value.func, ast.Attribute) \
                 and isinstance(n.value.func.value, ast.Name) and n.value.func.attr in MUTATORS:
             out.append(n.value.func.value.id)
+        elif isinstance(n, ast.Expr) and isinstance(n.value, ast.Call) and isinstance(n.value.func, (ast.Attribute, ast.Name)) \
+                and (n.value.func.attr if isinstance(n.value.func, ast.Attribute) else n.value.func.id) in INPLACE_CALLS and n.value.args and isinstance(n.value.args[0], ast.Name):
+            out.append(n.value.args[0].id)
         for c in ast.iter_child_nodes(n):
             visit(c)
 
@@ -625,6 +631,13 @@ class Evaluator:
                 old = env[name]
                 env[name] = ("mut", c.func.attr, old, v[2], v[3])
                 self.emit("mutate", ctx, st, name=name, method=c.func.attr, old=old, args=v[2], kwargs=v[3])
+        elif isinstance(c, ast.Call) and head(v) == "call" and head(strip(v[1])) == "glob" and strip(v[1])[1].rsplit(".", 1)[-1] in INPLACE_CALLS \
+                and strip(v[1])[1].split(".")[0] in ("numpy", "random") and c.args and isinstance(c.args[0], ast.Name):
+            name = c.args[0].id
+            if name in env and self.scopes and name in self.scopes[-1]["locals"]:
+                old = env[name]
+                env[name] = ("mutf", strip(v[1])[1], old, v[2][1:], v[3])
+                self.emit("mutate_f", ctx, st, name=name, func=strip(v[1])[1], old=old, args=v[2][1:], kwargs=v[3])
         return env, FALL
 
     def s_Pass(self, st, env, ctx):
